@@ -200,6 +200,7 @@ def run(tier):
     rule_R11(res, prog)
     rule_R12(res, prog)
     rule_R13(res, prog)
+    rule_R14(res, prog)
     return res.finish()
 
 
@@ -1027,3 +1028,44 @@ def rule_R13(res, prog):
                                  [a for a in atoms]), file=fn.relfile, line=t["ln"])
             res.instance(rid, "parsedate_zulu:%s year += 100 exactly for YY in 0..49" % t["ln"], ok, finding=f_)
     res.floor(rid, 1)
+
+
+def rule_R14(res, prog):
+    """`a genuinely signed path to a trust anchor`: psX509AuthenticateCert(cert, NULL) tests the last certificate of the chain
+    against ITSELF (self-signed test).  The ALLOW_INTERMEDIATES_AS_ROOTS shortcut - accept sc without a signature check
+    because it is a byte-for-byte copy of the trusted certificate ic - is trivially true for sc == ic, so every identity
+    test of that shortcut (memcmpct of the two signatures / digests) must lie behind the true edge of `sc != ic`."""
+    from sa import cfgutil as cu
+    rid = "C03.R14"
+    res.rule(rid, "the `copy of a trusted certificate` shortcut is taken only for two different certificate objects (sc != ic)")
+    fn = prog.fn("psX509AuthenticateCert")
+    dom = cu.dominators(fn)
+    ne_blocks = []
+    id_blocks = []
+    for b in fn.blocks:
+        t = b.get("term")
+        if t is None or "c" not in t:
+            continue
+        tx = cu.ftext(t["c"])
+        if tx in ("(sc != ic)", "(ic != sc)"):
+            ne_blocks.append(b)
+        if "memcmpct(sc->signature, ic->signature" in tx or "memcmpct(sc->sigHash, ic->sigHash" in tx:
+            id_blocks.append(b)
+    n = 0
+    for ib in id_blocks:
+        n += 1
+        ok = False
+        for nb in ne_blocks:
+            ts = nb["succ"][0].get("b") if nb["succ"] else None
+            if ts is not None and (ts == ib["id"] or ts in dom.get(ib["id"], set())):
+                ok = True
+        f_ = None
+        if not ok:
+            f_ = Finding(PROP, rid, fn.name, "identity shortcut reachable with sc == ic",
+                         "%s:%s psX509AuthenticateCert(): the comparison `%s` of the `sc is a copy of the trusted certificate ic` shortcut "
+                         "is not behind the true edge of `sc != ic`: with no issuer given the last certificate is compared with itself, the "
+                         "shortcut holds trivially and a certificate that is not even self-signed gets PS_CERT_AUTH_PASS without any "
+                         "signature check (matrixValidateCerts with an empty trust-anchor list succeeds)" % (
+                             fn.relfile, ib["term"]["ln"], cu.ftext(ib["term"]["c"])[:60]), file=fn.relfile, line=ib["term"]["ln"])
+        res.instance(rid, "psX509AuthenticateCert:%s identity test behind sc != ic" % ib["term"]["ln"], ok, finding=f_)
+    res.floor(rid, 2)
